@@ -50,12 +50,20 @@ def write_replay(path, prop, seed, run, hashclass, program, violation, minimised
         f.write('\n')
 
 
-def run_replay_file(prop, path):
-    """-> (violation or None, digest).  Fresh worker process per replay."""
+def run_replay_file(prop, path, runners=None):
+    """-> (record, violation or None, digest).  Fresh worker process per replay, unless a pool
+    of runners (one pristine worker per hash-seed class; every program still runs in its own
+    fork of it) is given."""
     rec = json.load(open(path))
     if rec.get('property') != prop:
         raise core.HarnessError("%s is a replay file of %r" % (path, rec.get('property')))
-    runner = core.ProgramRunner(prop, int(rec.get('hashseed_class', 0)))
+    hc = int(rec.get('hashseed_class', 0)) % core.HASH_CLASSES
+    if runners is not None:
+        if hc not in runners:
+            runners[hc] = core.ProgramRunner(prop, hc)
+        rep = runners[hc].run(rec['program'])
+        return rec, rep.get('violation'), rep.get('digest')
+    runner = core.ProgramRunner(prop, hc)
     try:
         rep = runner.run(rec['program'])
     finally:
@@ -134,11 +142,15 @@ def cmd_check(prop, tier, n_runs=None, jobs=None):
     # 1. regression programs of repaired defects, replayed first
     regress = sorted(glob.glob(os.path.join(core.VERIF_DIR, 'regress', prop, '*.json')))
     regress_failed = 0
+    runners = {}
     for path in regress:
         try:
-            rec, v, dg = run_replay_file(prop, path)
+            rec, v, dg = run_replay_file(prop, path, runners)
         except core.HarnessError as e:
             harness.append("HARNESS-ERROR regress %s: %s" % (path, e))
+            for r in runners.values():
+                r.close()
+            runners = {}
             continue
         if v:
             key = mod.finding_key(rec['program'], v)
@@ -151,6 +163,9 @@ def cmd_check(prop, tier, n_runs=None, jobs=None):
                 out("violation (regression program): invariant=%s observed=%s expected=%s" %
                     (v['invariant'], json.dumps(v.get('observed')), json.dumps(v.get('expected'))))
                 lines.append("VIOLATION property=%s replay=%s" % (prop, path))
+
+    for r in runners.values():
+        r.close()
 
     # 2. seeded search
     batch = core.Batch(prop, seed, tier, n_runs, cfg['wall_cap'], jobs=jobs).run()
